@@ -9,7 +9,10 @@
 #include <thread>
 
 struct Ctx {
-  SpyAllocator spy;
+  SpyAllocator spy;                                   // the failure schedule, the call counter and the combined call log
+  std::deque<SpyAllocator> spies;                     // one ledger per document (each document gets its own allocator)
+  size_t liveBlocks() const { size_t n = spy.live.size(); for (auto& s : spies) n += s.live.size(); return n; }
+  bool misuse() const { bool m = spy.misuse; for (auto& s : spies) m = m || s.misuse; return m; }
   std::vector<std::unique_ptr<JsonDocument>> docs;
   std::vector<JsonVariant> handles;
   std::deque<std::string> pool;     // storage kept alive for linked strings
@@ -41,10 +44,11 @@ template <class V> static bool setString(Ctx& c, V v, const std::string& s) {
     case 1: return v.set(linkedBuf(c, s));                  // const char*: linked
     case 2: { std::vector<char> buf(s.begin(), s.end()); buf.push_back(0); bool r = v.set(buf.data());   // char*: copied
               std::fill(buf.begin(), buf.end(), 'Z'); return r; }
-    case 3: { std::string tmp = s; bool r = v.set(JsonString(tmp.c_str(), tmp.size(), JsonString::Copied)); tmp.assign(tmp.size(), 'Z'); return r; }
+    case 3: { std::string tmp = s + "~not-terminated";      // sized kinds: the bytes right after the string are not a terminator
+              bool r = v.set(JsonString(tmp.c_str(), s.size(), JsonString::Copied)); tmp.assign(tmp.size(), 'Z'); return r; }
     case 4: { ::String as(s.c_str()); return v.set(as); }
     case 5: { c.pool.push_back(s); const __FlashStringHelper* f = reinterpret_cast<const __FlashStringHelper*>(convertPtrToFlash(c.pool.back().c_str())); return v.set(f); }
-    case 6: { std::string tmp = s; std::string_view sv(tmp); bool r = v.set(sv); tmp.assign(tmp.size(), 'Z'); return r; }
+    case 6: { std::string tmp = s + "~not-terminated"; std::string_view sv(tmp.data(), s.size()); bool r = v.set(sv); tmp.assign(tmp.size(), 'Z'); return r; }
     default: { std::string tmp = s; bool r = v.set(tmp); tmp.assign(tmp.size(), 'Z'); return r; }
   }
 }
@@ -71,10 +75,10 @@ template <class F> static auto withKey(Ctx& c, const std::string& k, F f) {
     case 2: { c.pool2.emplace_back(k.begin(), k.end()); c.pool2.back().push_back(0); std::vector<char> tmp = c.pool2.back();
               auto r = f((char*)tmp.data()); return r; }
     case 3: { if (const char* a = aliasPrefix(c, k)) return f(JsonString(a, k.size(), JsonString::Copied));
-              std::string tmp = k; return f(JsonString(tmp.c_str(), tmp.size(), JsonString::Copied)); }
+              std::string tmp = k + "~not-terminated"; return f(JsonString(tmp.c_str(), k.size(), JsonString::Copied)); }
     case 4: { ::String as(k.c_str()); return f(as); }
     case 6: { if (const char* a = aliasPrefix(c, k)) return f(std::string_view(a, k.size()));
-              std::string tmp = k; std::string_view sv(tmp); return f(sv); }
+              std::string tmp = k + "~not-terminated"; std::string_view sv(tmp.data(), k.size()); return f(sv); }
     default: { std::string tmp = k; return f(tmp); }
   }
 }
@@ -275,7 +279,8 @@ static std::string runHistory(size_t nd, int kind, const std::string& fs, const 
   }
   std::string out;
   {
-    for (size_t i = 0; i < nd; i++) c.docs.emplace_back(defaultAlloc ? new JsonDocument() : new JsonDocument(&c.spy));
+    for (size_t i = 0; i < nd; i++) { c.spies.emplace_back(); c.spies.back().master = &c.spy; }
+    for (size_t i = 0; i < nd; i++) c.docs.emplace_back(defaultAlloc ? new JsonDocument() : new JsonDocument(&c.spies[i]));
     c.handles.resize(nd);
     for (size_t i = 0; i < nd; i++) c.handles[i] = JsonVariant(*c.docs[i]);
     size_t pos = 0;
@@ -310,7 +315,7 @@ static std::string runHistory(size_t nd, int kind, const std::string& fs, const 
       }
       std::string ov;
       for (size_t i = 0; i < nd; i++) ov += c.docs[i]->overflowed() ? '1' : '0';
-      out += res + "|" + docs + "|" + hd + " ~" + ov + "~" + std::to_string(callsBefore) + "~" + std::to_string(c.spy.calls) + "~" + std::to_string(c.spy.live.size());
+      out += res + "|" + docs + "|" + hd + " ~" + ov + "~" + std::to_string(callsBefore) + "~" + std::to_string(c.spy.calls) + "~" + std::to_string(c.liveBlocks());
       if (shared) {
         // const access to the shared document: copy it, and use a part of it as a filter
         JsonDocument tmp;
@@ -359,7 +364,7 @@ static std::string runHistory(size_t nd, int kind, const std::string& fs, const 
     c.handles.clear();
     // clear(): everything goes back to the allocator; the document then works again
     for (size_t i = 0; i < nd; i++) c.docs[i]->clear();
-    out += "afterclear=" + std::to_string(c.spy.live.size()) + " ";
+    out += "afterclear=" + std::to_string(c.liveBlocks()) + " ";
     c.spy.fail.clear(); c.spy.fail_from = -1;
     for (size_t i = 0; i < nd; i++) {
       (*c.docs[i])["k"] = "v";
@@ -367,7 +372,7 @@ static std::string runHistory(size_t nd, int kind, const std::string& fs, const 
     }
     c.docs.clear();
   }
-  out += "leaked=" + std::to_string(c.spy.live.size()) + (c.spy.misuse ? " MISUSE" : "") + " calls=" + std::to_string(c.spy.calls);
+  out += "leaked=" + std::to_string(c.liveBlocks()) + (c.misuse() ? " MISUSE" : "") + " calls=" + std::to_string(c.spy.calls);
   return out;
 }
 
